@@ -34,17 +34,26 @@ class VGen:
         self.node, self.frame = node, frame
 
 
+class VEmptySet:
+    """`set()` before its element kind is known."""
+    kind = PyKind("emptyset")
+
+    def __repr__(self):
+        return "VEmptySet"
+
+
 LOGGING_NAMES = {"logging", "log", "LOG_UI", "logger"}
 LOG_METHODS = {"debug", "info", "warning", "error", "critical", "exception", "warn"}
 
 # uninterpreted helpers shared by all obligations
 str_lower = z3.Function("str_lower", z3.StringSort(), z3.StringSort())
 str_upper = z3.Function("str_upper", z3.StringSort(), z3.StringSort())
-str_split = z3.Function("str_split", z3.StringSort(), z3.StringSort(), z3.SeqSort(z3.StringSort()))
-str_wsplit = z3.Function("str_wsplit", z3.StringSort(), z3.SeqSort(z3.StringSort()))
+STRLIST = Seq(STR)
+str_split = z3.Function("str_split", z3.StringSort(), z3.StringSort(), STRLIST.sort())
+str_wsplit = z3.Function("str_wsplit", z3.StringSort(), STRLIST.sort())
 str_strip = z3.Function("str_strip", z3.StringSort(), z3.StringSort())
 str_rstrip = z3.Function("str_rstrip", z3.StringSort(), z3.StringSort())
-str_join = z3.Function("str_join", z3.StringSort(), z3.SeqSort(z3.StringSort()), z3.StringSort())
+str_join = z3.Function("str_join", z3.StringSort(), STRLIST.sort(), z3.StringSort())
 str_is_int = z3.Function("str_is_int", z3.StringSort(), z3.BoolSort())
 str_int = z3.Function("str_int", z3.StringSort(), z3.IntSort())
 int_str = z3.Function("int_str", z3.IntSort(), z3.StringSort())
@@ -90,6 +99,10 @@ class Models:
         ax.append(z3.ForAll([s], str_lower(str_lower(s)) == str_lower(s)))
         n = z3.Const("ax_n", z3.IntSort())
         ax.append(z3.ForAll([n], z3.And(str_is_int(int_str(n)), str_int(int_str(n)) == n)))
+        from .kinds import USED_LIST_SORTS
+        for name, srt in list(USED_LIST_SORTS.items()):
+            l = z3.Const("ax_l", srt)
+            ax.append(z3.ForAll([l], srt.len(l) >= 0, patterns=[srt.len(l)]))
         return ax
 
     # ------------------------------------------------------------------ operators
@@ -177,12 +190,19 @@ class Models:
             sa, sb = eng.to_smt(a, st), eng.to_smt(b, st)
             if isinstance(sa, V) and isinstance(sa.kind, Seq):
                 sb2 = self.seq_like(eng, b, sa.kind, st)
-                yield st, V(sa.kind, z3.Concat(sa.term, sb2.term))
+                if isinstance(b, (VList, VTuple)) and len(b.items) == 1:
+                    yield st, V(sa.kind, sa.kind.append(sa.term, sa.kind.at(sb2.term, 0)))
+                else:
+                    yield st, V(sa.kind, sa.kind.concat(sa.term, sb2.term))
                 return
             if isinstance(sb, V) and isinstance(sb.kind, Seq):
                 sa2 = self.seq_like(eng, a, sb.kind, st)
-                yield st, V(sb.kind, z3.Concat(sa2.term, sb.term))
+                yield st, V(sb.kind, sb.kind.concat(sa2.term, sb.term))
                 return
+        if isinstance(a, VEmptySet):
+            a = VTuple([])
+        if isinstance(b, VEmptySet):
+            b = VTuple([])
         if isinstance(a, (VTuple, VList)) and not a.items and isinstance(b, V) and isinstance(b.kind, SetK) \
                 and isinstance(op, ast.BitOr):
             yield st, b
@@ -196,8 +216,12 @@ class Models:
                 return
         if isinstance(a, (VTuple, VList)) and not a.items and isinstance(b, (VTuple, VList)) and not b.items \
                 and isinstance(op, (ast.BitOr, ast.BitAnd, ast.Sub)):
-            yield st, VTuple([])
+            yield st, VEmptySet()
             return
+        if isinstance(a, (VTuple, VList)) and not a.items and isinstance(b, V) and isinstance(b.kind, SetK):
+            if isinstance(op, ast.BitAnd) or isinstance(op, ast.Sub):
+                yield st, VEmptySet()
+                return
         if isinstance(a, V) and isinstance(a.kind, SetK):
             sb = eng.as_set(b, st)
             sb = V(a.kind, sb.term)
@@ -267,7 +291,7 @@ class Models:
                     yield st, z3.BoolVal(False)
                     return
                 xe = eng.coerce(x, c.kind.elem, st)
-                yield st, z3.Contains(c.term, z3.Unit(xe.term))
+                yield st, c.kind.contains(c.term, xe.term)
                 return
             if isinstance(c.kind, SetK):
                 if isinstance(x, VNone) and not isinstance(c.kind.elem, (Ref, Opt)):
@@ -286,6 +310,9 @@ class Models:
                     for st1, v in h(eng, st, c, [x], {}, node):
                         yield st1, eng.truth(v, st1)
                     return
+        if isinstance(c, VEmptySet):
+            yield st, z3.BoolVal(False)
+            return
         if isinstance(c, (VList, VTuple)):
             if not c.items:
                 yield st, z3.BoolVal(False)
@@ -316,7 +343,7 @@ class Models:
             if isinstance(k, Seq) or k == STR:
                 if not (isinstance(idx, V) and idx.kind == INT):
                     raise Untranslatable("non-integer sequence index", node)
-                n = z3.Length(obj.term)
+                n = z3.Length(obj.term) if k == STR else k.len(obj.term)
                 i = z3.If(idx.term < 0, n + idx.term, idx.term)
                 i = z3.simplify(i)
                 for st1, ok in eng.fork(st, z3.And(i >= 0, i < n), f"index@{node.lineno}"):
@@ -324,7 +351,7 @@ class Models:
                         if k == STR:
                             yield st1, V(STR, z3.SubString(obj.term, i, 1))
                         else:
-                            yield st1, V(k.elem, obj.term[i])
+                            yield st1, V(k.elem, k.at(obj.term, i))
                     else:
                         eng.raise_exc(st1, "IndexError", node)
                 return
@@ -367,7 +394,7 @@ class Models:
                 return
             obj = eng.to_smt(obj, st)
         if isinstance(obj, V) and (obj.kind == STR or isinstance(obj.kind, Seq)):
-            n = z3.Length(obj.term)
+            n = z3.Length(obj.term) if obj.kind == STR else obj.kind.len(obj.term)
 
             def norm(x, dflt):
                 if x is None:
@@ -378,13 +405,13 @@ class Models:
             l = norm(lo, z3.IntVal(0))
             h = norm(hi, n)
             ln = z3.If(h - l < 0, 0, h - l)
-            yield st, V(obj.kind, z3.SubSeq(obj.term, l, ln) if obj.kind != STR else z3.SubString(obj.term, l, ln))
+            yield st, V(obj.kind, obj.kind.sub(obj.term, l, ln) if obj.kind != STR else z3.SubString(obj.term, l, ln))
             return
         raise Untranslatable(f"slice of {obj!r}", node)
 
     def map_store(self, k, m, key, val):
         dom, va, keys = k.dom(m), k.valarr(m), k.keys(m)
-        newkeys = z3.If(z3.Select(dom, key), keys, z3.Concat(keys, z3.Unit(key)))
+        newkeys = z3.If(z3.Select(dom, key), keys, Seq(k.key).append(keys, key))
         return k.mk(z3.Store(dom, key, z3.BoolVal(True)), z3.Store(va, key, val), newkeys)
 
     def setitem(self, eng, obj, idx, v, st, node):
@@ -406,13 +433,12 @@ class Models:
                             eng.raise_exc(st1, "TypeError", node)
                     return
             if isinstance(k, Seq):
-                n = z3.Length(obj.term)
+                n = k.len(obj.term)
                 i = z3.If(idx.term < 0, n + idx.term, idx.term)
                 for st1, ok in eng.fork(st, z3.And(i >= 0, i < n), "index-store"):
                     if ok:
                         ve = eng.coerce(v, k.elem, st1)
-                        t = z3.Concat(z3.SubSeq(obj.term, 0, i), z3.Unit(ve.term), z3.SubSeq(obj.term, i + 1, n - i - 1))
-                        yield st1, V(k, t)
+                        yield st1, V(k, k.mk(n, z3.Store(k.arr(obj.term), i, ve.term)))
                     else:
                         eng.raise_exc(st1, "IndexError", node)
                 return
@@ -438,8 +464,12 @@ class Models:
                 for st1, ok in eng.fork(st, z3.Select(k.dom(obj.term), ke.term), "delkey"):
                     if ok:
                         keys = k.keys(obj.term)
-                        i = z3.IndexOf(keys, z3.Unit(ke.term), 0)
-                        newkeys = z3.Concat(z3.SubSeq(keys, 0, i), z3.SubSeq(keys, i + 1, z3.Length(keys) - i - 1))
+                        ks = Seq(k.key)
+                        pos = fresh(INT, "delpos")
+                        st1.assume(z3.Implies(
+                            z3.Exists([pos.term], z3.And(0 <= pos.term, pos.term < ks.len(keys), ks.at(keys, pos.term) == ke.term)),
+                            z3.And(0 <= pos.term, pos.term < ks.len(keys), ks.at(keys, pos.term) == ke.term)))
+                        newkeys = ks.without(keys, pos.term)
                         yield st1, V(k, k.mk(z3.Store(k.dom(obj.term), ke.term, z3.BoolVal(False)), k.valarr(obj.term), newkeys))
                     else:
                         eng.raise_exc(st1, "KeyError", node)
@@ -460,9 +490,9 @@ class Models:
             yield st, v.items
             return
         if isinstance(v, V) and isinstance(v.kind, Seq):
-            for st1, ok in eng.fork(st, z3.Length(v.term) == n, f"unpack@{getattr(node, 'lineno', '?')}"):
+            for st1, ok in eng.fork(st, v.kind.len(v.term) == n, f"unpack@{getattr(node, 'lineno', '?')}"):
                 if ok:
-                    yield st1, [V(v.kind.elem, v.term[i]) for i in range(n)]
+                    yield st1, [V(v.kind.elem, v.kind.at(v.term, i)) for i in range(n)]
                 else:
                     eng.raise_exc(st1, "ValueError", node)
             return
@@ -477,9 +507,10 @@ class Models:
         idx = z3.Function(fresh_name("idxof"), es, z3.IntSort())
         i = z3.Const(fresh_name("i"), z3.IntSort())
         x = z3.Const(fresh_name("x"), es)
-        n = z3.Length(v.term)
-        st.assume(z3.ForAll([i], z3.Implies(z3.And(0 <= i, i < n), z3.Select(S, v.term[i])), patterns=[v.term[i]]))
-        st.assume(z3.ForAll([x], z3.Implies(z3.Select(S, x), z3.And(0 <= idx(x), idx(x) < n, v.term[idx(x)] == x)),
+        n = v.kind.len(v.term)
+        at = lambda q: v.kind.at(v.term, q)
+        st.assume(z3.ForAll([i], z3.Implies(z3.And(0 <= i, i < n), z3.Select(S, at(i))), patterns=[at(i)]))
+        st.assume(z3.ForAll([x], z3.Implies(z3.Select(S, x), z3.And(0 <= idx(x), idx(x) < n, at(idx(x)) == x)),
                             patterns=[z3.Select(S, x)]))
         st.assume(z3.Select(S, x) == z3.Select(S, x))
         return V(SetK(elem), S)
@@ -497,6 +528,8 @@ class Models:
                 h = getattr(self, "set_" + name, None)
             elif isinstance(k, Map):
                 h = getattr(self, "map_" + name, None)
+        elif isinstance(recv, VEmptySet):
+            h = getattr(self, "eset_" + name, None)
         elif isinstance(recv, VList):
             h = getattr(self, "pylist_" + name, None)
         elif isinstance(recv, VDict):
@@ -586,12 +619,13 @@ class Models:
                 return
             raise Untranslatable("split with maxsplit", node)
         r = str_split(s.term, sep.term)
-        st.assume(z3.Length(r) >= 1)
-        st.assume(z3.Implies(z3.Not(z3.Contains(s.term, sep.term)), r == z3.Unit(s.term)))
-        st.assume(z3.Implies(z3.Length(r) == 1, r[0] == s.term))
+        L = STRLIST
+        st.assume(L.len(r) >= 1)
+        st.assume(z3.Implies(z3.Not(z3.Contains(s.term, sep.term)), z3.And(L.len(r) == 1, L.at(r, 0) == s.term)))
+        st.assume(z3.Implies(L.len(r) == 1, L.at(r, 0) == s.term))
         # two parts <=> exactly one separator; then s == r0 + sep + r1
-        st.assume(z3.Implies(z3.Length(r) == 2, s.term == z3.Concat(r[0], sep.term, r[1])))
-        st.assume(z3.Implies(z3.Contains(s.term, sep.term), z3.Length(r) >= 2))
+        st.assume(z3.Implies(L.len(r) == 2, s.term == z3.Concat(L.at(r, 0), sep.term, L.at(r, 1))))
+        st.assume(z3.Implies(z3.Contains(s.term, sep.term), L.len(r) >= 2))
         yield st, V(Seq(STR), r)
 
     def str_splitlines(self, eng, s, args, kw, st, node):
@@ -653,30 +687,39 @@ class Models:
     # -- seq (list held in SMT)
     def seq_append(self, eng, s, args, kw, st, node):
         x = eng.coerce(args[0], s.kind.elem, st)
-        new = V(s.kind, z3.Concat(s.term, z3.Unit(x.term)))
+        new = V(s.kind, s.kind.append(s.term, x.term))
         for st1 in self.write_back(eng, node, new, st):
             yield st1, NONE
 
     def seq_extend(self, eng, s, args, kw, st, node):
         o = self.seq_like(eng, args[0], s.kind, st)
-        new = V(s.kind, z3.Concat(s.term, o.term))
+        new = V(s.kind, s.kind.concat(s.term, o.term))
         for st1 in self.write_back(eng, node, new, st):
             yield st1, NONE
 
+    def first_index(self, eng, s, x, st):
+        """Fresh integer constrained to be the first index of x in s (meaningful when x occurs)."""
+        k = s.kind
+        pos = fresh(INT, "pos")
+        j = z3.Const(fresh_name("fj"), z3.IntSort())
+        st.assume(z3.And(0 <= pos.term, pos.term < k.len(s.term), k.at(s.term, pos.term) == x.term,
+                         z3.ForAll([j], z3.Implies(z3.And(0 <= j, j < pos.term), k.at(s.term, j) != x.term))))
+        return pos
+
     def seq_remove(self, eng, s, args, kw, st, node):
         x = eng.coerce(args[0], s.kind.elem, st)
-        u = z3.Unit(x.term)
-        for st1, ok in eng.fork(st, z3.Contains(s.term, u), "remove"):
+        for st1, ok in eng.fork(st, s.kind.contains(s.term, x.term), "remove"):
             if ok:
-                i = z3.IndexOf(s.term, u, 0)
-                new = V(s.kind, z3.Concat(z3.SubSeq(s.term, 0, i), z3.SubSeq(s.term, i + 1, z3.Length(s.term) - i - 1)))
+                pos = self.first_index(eng, s, x, st1)
+                new = V(s.kind, s.kind.without(s.term, pos.term))
                 for st2 in self.write_back(eng, node, new, st1):
                     yield st2, NONE
             else:
                 eng.raise_exc(st1, "ValueError", node)
 
     def seq_pop(self, eng, s, args, kw, st, node):
-        n = z3.Length(s.term)
+        k = s.kind
+        n = k.len(s.term)
         if args:
             ok, c = concrete(args[0])
             if not (ok and c in (0, -1)):
@@ -687,11 +730,11 @@ class Models:
         for st1, ok in eng.fork(st, n > 0, "pop"):
             if ok:
                 if first:
-                    item = V(s.kind.elem, s.term[0])
-                    new = V(s.kind, z3.SubSeq(s.term, 1, n - 1))
+                    item = V(k.elem, k.at(s.term, 0))
+                    new = V(k, k.sub(s.term, 1, n - 1))
                 else:
-                    item = V(s.kind.elem, s.term[n - 1])
-                    new = V(s.kind, z3.SubSeq(s.term, 0, n - 1))
+                    item = V(k.elem, k.at(s.term, n - 1))
+                    new = V(k, k.mk(n - 1, k.arr(s.term)))
                 for st2 in self.write_back(eng, node, new, st1):
                     yield st2, item
             else:
@@ -699,10 +742,9 @@ class Models:
 
     def seq_index(self, eng, s, args, kw, st, node):
         x = eng.coerce(args[0], s.kind.elem, st)
-        u = z3.Unit(x.term)
-        for st1, ok in eng.fork(st, z3.Contains(s.term, u), "index"):
+        for st1, ok in eng.fork(st, s.kind.contains(s.term, x.term), "index"):
             if ok:
-                yield st1, V(INT, z3.IndexOf(s.term, u, 0))
+                yield st1, self.first_index(eng, s, x, st1)
             else:
                 eng.raise_exc(st1, "ValueError", node)
 
@@ -713,7 +755,7 @@ class Models:
         x = eng.coerce(args[0], s.kind.elem, st)
         r = fresh(INT, "count")
         st.assume(r.term >= 0)
-        st.assume((r.term > 0) == z3.Contains(s.term, z3.Unit(x.term)))
+        st.assume((r.term > 0) == s.kind.contains(s.term, x.term))
         yield st, r
 
     # -- set
@@ -765,6 +807,32 @@ class Models:
         yield st, V(BOOL, z3.IsSubset(s.term, eng.as_set(args[0], st).term))
 
     def set_copy(self, eng, s, args, kw, st, node):
+        yield st, s
+
+    # -- empty set of unknown element kind
+    def eset_add(self, eng, s, args, kw, st, node):
+        x = args[0]
+        new = V(SetK(x.kind), z3.SetAdd(z3.EmptySet(x.kind.sort()), x.term))
+        for st1 in self.write_back(eng, node, new, st):
+            yield st1, NONE
+
+    def eset_update(self, eng, s, args, kw, st, node):
+        a = args[0]
+        if isinstance(a, VEmptySet) or (isinstance(a, (VList, VTuple)) and not a.items):
+            yield st, NONE
+            return
+        for st1 in self.write_back(eng, node, eng.as_set(a, st), st):
+            yield st1, NONE
+
+    def eset_discard(self, eng, s, args, kw, st, node):
+        yield st, NONE
+
+    def eset_remove(self, eng, s, args, kw, st, node):
+        eng.raise_exc(st, "KeyError", node)
+        return
+        yield
+
+    def eset_copy(self, eng, s, args, kw, st, node):
         yield st, s
 
     # -- map
@@ -964,8 +1032,11 @@ class Models:
             a = self.realize_gen(eng, a, st, "list")
         if isinstance(a, V):
             k = a.kind
-            if k == STR or isinstance(k, Seq):
+            if k == STR:
                 yield st, V(INT, z3.Length(a.term))
+                return
+            if isinstance(k, Seq):
+                yield st, V(INT, k.len(a.term))
                 return
             if isinstance(k, SetK):
                 c = card_fn(k.elem.sort())
@@ -975,13 +1046,16 @@ class Models:
                 yield st, V(INT, c(a.term))
                 return
             if isinstance(k, Map):
-                yield st, V(INT, z3.Length(k.keys(a.term)))
+                yield st, V(INT, Seq(k.key).len(k.keys(a.term)))
                 return
             if isinstance(k, Ref):
                 h = eng.schema_lookup(k.cls, "methods", "__len__")
                 if h is not None:
                     yield from h(eng, st, a, [], {}, node)
                     return
+        if isinstance(a, VEmptySet):
+            yield st, const(0)
+            return
         if isinstance(a, (VList, VTuple)):
             yield st, const(len(a.items))
             return
@@ -1010,12 +1084,12 @@ class Models:
             elif isinstance(a, V) and isinstance(a.kind, Seq) and a.kind.elem in (INT, REAL):
                 r = fresh(a.kind.elem, "max" if is_max else "min")
                 i = z3.Const(fresh_name("i"), z3.IntSort())
-                n = z3.Length(a.term)
+                n = a.kind.len(a.term)
                 def body(st1):
                     cmp_ = (lambda x, y: x >= y) if is_max else (lambda x, y: x <= y)
-                    st1.assume(z3.ForAll([i], z3.Implies(z3.And(0 <= i, i < n), cmp_(r.term, a.term[i]))))
+                    st1.assume(z3.ForAll([i], z3.Implies(z3.And(0 <= i, i < n), cmp_(r.term, a.kind.at(a.term, i)))))
                     j = fresh(INT, "argm")
-                    st1.assume(z3.And(0 <= j.term, j.term < n, a.term[j.term] == r.term))
+                    st1.assume(z3.And(0 <= j.term, j.term < n, a.kind.at(a.term, j.term) == r.term))
                     return r
                 for st1, nonempty in eng.fork(st, n > 0, "minmax"):
                     if nonempty:
@@ -1047,15 +1121,17 @@ class Models:
 
     def bi_set(self, eng, st, args, kw, node):
         if not args:
-            yield st, VList([]) if False else V(SetK(eng.default_set_elem), z3.EmptySet(eng.default_set_elem.sort())) \
-                if getattr(eng, "default_set_elem", None) else VTuple([])
+            yield st, VEmptySet()
             return
         a = args[0]
         if isinstance(a, VGen):
             yield st, self.realize_gen(eng, a, st, "set")
             return
         if isinstance(a, (VList, VTuple)) and not a.items:
-            yield st, VTuple([])
+            yield st, VEmptySet()
+            return
+        if isinstance(a, VEmptySet):
+            yield st, a
             return
         yield st, eng.as_set(a, st)
 
@@ -1095,10 +1171,14 @@ class Models:
         i = z3.Const(fresh_name("i"), z3.IntSort())
         j = z3.Const(fresh_name("j"), z3.IntSort())
         x = z3.Const(fresh_name("x"), elem.sort())
-        n = z3.Length(q.term)
-        st.assume(z3.ForAll([i], z3.Implies(z3.And(0 <= i, i < n), z3.Select(s.term, q.term[i]))))
-        st.assume(z3.ForAll([x], z3.Implies(z3.Select(s.term, x), z3.Contains(q.term, z3.Unit(x)))))
-        st.assume(z3.ForAll([i, j], z3.Implies(z3.And(0 <= i, i < j, j < n), q.term[i] != q.term[j])))
+        K = q.kind
+        n = K.len(q.term)
+        at = lambda z: K.at(q.term, z)
+        pos = z3.Function(fresh_name("enumpos"), elem.sort(), z3.IntSort())
+        st.assume(z3.ForAll([i], z3.Implies(z3.And(0 <= i, i < n), z3.Select(s.term, at(i))), patterns=[at(i)]))
+        st.assume(z3.ForAll([x], z3.Implies(z3.Select(s.term, x), z3.And(0 <= pos(x), pos(x) < n, at(pos(x)) == x)),
+                            patterns=[z3.Select(s.term, x)]))
+        st.assume(z3.ForAll([i, j], z3.Implies(z3.And(0 <= i, i < j, j < n), at(i) != at(j)), patterns=[z3.MultiPattern(at(i), at(j))]))
         return q
 
     def bi_tuple(self, eng, st, args, kw, node):
@@ -1352,12 +1432,12 @@ class Models:
         pre = st.copy()
         pre.heap, pre.pyheap, pre.ghost, pre.alloc = dict(ent.heap), dict(ent.pyheap), dict(ent.ghost), ent.alloc
         frame = {"__closure__": st.frames[-1]}
-        for k, v in ent.frames[0].items():
+        for k, v in ent.frames[-1].items():
             if k != "__closure__":
                 frame[k] = v
         # quantifier-bound names of the current frame chain stay visible through the closure link
         for k, v in st.frames[-1].items():
-            if k not in ent.frames[0] and k != "__closure__":
+            if k not in ent.frames[-1] and k != "__closure__":
                 frame[k] = v
         pre.frames.append(frame)
         v = eng.ev_merged(e.args[0], pre)
@@ -1391,8 +1471,18 @@ class Models:
             bound = [fresh(dom.kind.elem, names[0])]
             guard = z3.Select(dom.term, bound[0].term)
         elif isinstance(dom, V) and isinstance(dom.kind, Seq):
-            bound = [fresh(dom.kind.elem, names[0])]
-            guard = z3.Contains(dom.term, z3.Unit(bound[0].term))
+            # index based encoding: forall j. 0 <= j < len -> body(seq[j])
+            j = fresh(INT, "qj")
+            frame = {"__closure__": st1.frames[-1], names[0]: V(dom.kind.elem, dom.kind.at(dom.term, j.term))}
+            st1.frames.append(frame)
+            body = eng.ev_merged(lam.body, st1, want_bool=True)
+            st1.frames.pop()
+            guard = z3.And(j.term >= 0, j.term < dom.kind.len(dom.term))
+            if is_forall:
+                yield st1, V(BOOL, z3.ForAll([j.term], z3.Implies(guard, body.term)))
+            else:
+                yield st1, V(BOOL, z3.Exists([j.term], z3.And(guard, body.term)))
+            return
         elif isinstance(dom, V) and isinstance(dom.kind, Map):
             bound = [fresh(dom.kind.key, names[0])]
             guard = z3.Select(dom.kind.dom(dom.term), bound[0].term)
